@@ -21,11 +21,11 @@ MODEL_TARGETS = ["Model/Lexer.vo"]
 IMPORTS = ("From Coq Require Import NArith List.\nFrom Ka Require Import Model.Lexer.\n"
            "Import ListNotations.\nOpen Scope string_scope.\nOpen Scope N_scope.\n")
 
-ALPHABET = list("019aexbtoinAFd.-+<=!\"#\\ \t€²é@_|±")
+ALPHABET = list("019aexbtoinAFd.-+<=!\"#\\ \t€²é@_|±μ")
 RED1 = list("01ebx.-+=!\"\\ #to")          # numbers, strings, operators
-RED2 = list("into a1_é€<=.s")               # keywords / identifiers
+RED2 = list("into a1_é€<=.sμ")               # keywords / identifiers
 WS = [" ", "\t", "\n", "\u00a0", "\u2003", "\x1c", "\r"]
-IDENT_CHARS = set("abcdefghijklmnopqrstuvwxyzABCDEFGHIJKLMNOPQRSTUVWXYZ0123456789_€$£¥")
+IDENT_CHARS = set("abcdefghijklmnopqrstuvwxyzABCDEFGHIJKLMNOPQRSTUVWXYZ0123456789_μ€$£¥")
 
 REGRESSION = ["1.23457e+06", "1.5e999", "1..5", "0x1F", "0b102", "int", "in t", "\"abc", "#2024",
               "0b0b1", "0b0B1", "0x0b1", "15.0e308", "0.0e309", "1.5e308", "1.5e-999", "1...", "1. .5", "1 ..5",
@@ -34,7 +34,7 @@ REGRESSION = ["1.23457e+06", "1.5e999", "1..5", "0x1F", "0b102", "int", "in t", 
               "1e5e5", "0O17", "1E5", "<==", "!==", ">==", "a<=b", "x±1", "#a#b#", "#\"#", "\"#\"", "", "  ",
               " x ", "to", "in", "to in", "into", "tox", "1to2", "1in2", "$5", "€_1", "1.5e+308",
               "179769313486231580793728971405303415079934132710037826936173778980444968292764750946649017977587207096330286416692887910946555547851940402630657488671505820681908902000708383676273854845817711531764475730270069855571366959622842914819860834936475292719074168444365510704342711559699508093042880177904174497791.9",
-              "00012", "0b", "0b1", "0o8", "0d", "0dA", "1_000", "a.b", "..", ". .", "1.e", ".5e1", "5.e-1"]
+              "μs", "5μm", "aμ", "toμ", "inμ", "μ", "1μ", "00012", "0b", "0b1", "0o8", "0d", "0dA", "1_000", "a.b", "..", ". .", "1.e", ".5e1", "5.e-1"]
 
 
 # ------------------------------------------------------------------ numeration of strings
@@ -148,7 +148,59 @@ def float_close(f, q):
     d = abs(Fraction(f) - q)
     if abs(q) >= FLT_MIN_NORMAL:
         return d <= abs(q) * Fraction(1, 10 ** 15)
-    return d <= Fraction(2) ** -1072
+    # below the normal range no float is within 1e-15: the property's tolerance does not apply;
+    # any float that is itself not above the normal threshold is accepted
+    return abs(Fraction(f)) <= FLT_MIN_NORMAL * (1 + Fraction(1, 10 ** 15))
+
+
+def bad_number_legit(s, i):
+    """Independent reading of the spelling at i: is a BadNumberError there justified?
+    (no number spelling starts there; a based literal with a digit >= base; a decimal whose exact
+    value is beyond the float range).  Integer and integer-mantissa spellings always have a value."""
+    D = "0123456789"
+    H = "0123456789abcdefABCDEF"
+    n = len(s)
+    if i + 2 < n and s[i] == "0" and s[i + 1] in "xobd" and s[i + 2] in H:
+        j = i + 2
+        while j < n and s[j] in H:
+            j += 1
+        base = {"x": 16, "o": 8, "b": 2, "d": 10}[s[i + 1]]
+        return any("0123456789abcdef".index(c.lower()) >= base for c in s[i + 2:j]), "based"
+    j = i
+    while j < n and s[j] in D:
+        j += 1
+    a = s[i:j]
+    dot = j < n and s[j] == "."
+    b = ""
+    if dot:
+        k = j + 1
+        while k < n and s[k] in D:
+            k += 1
+        b = s[j + 1:k]
+        j = k
+    if not a and not b:
+        return True, "no-spelling"
+    if not dot:
+        return False, "int"
+    e = 0
+    if j < n and s[j] == "e":
+        k = j + 1
+        sg = 1
+        if k < n and s[k] in "+-":
+            sg = -1 if s[k] == "-" else 1
+            k += 1
+        k0 = k
+        while k < n and s[k] in D:
+            k += 1
+        if k > k0:
+            e = sg * int(s[k0:k])
+    q = Fraction(int((a + b) or "0"), 10 ** len(b)) * Fraction(10) ** e
+    return q >= FLT_OVER * (1 - Fraction(1, 10 ** 15)), "decimal"
+
+
+def short(q):
+    t = str(q)
+    return t if len(t) < 60 else "%s (~%.17g)" % (t[:24] + "..." + t[-12:], float(q)) if abs(q) < FLT_OVER else t[:24] + "...(%d digits)" % len(t)
 
 
 def unclosed_ref(s, i):
@@ -191,6 +243,11 @@ def relations(s, toks, exc, T, ws_choices):
             if not (0 <= i < len(s)) or s[i].isspace():
                 bad.append((dict(kind="error-position", what=type(exc).__name__),
                             "%s index %r is outside the input or on whitespace" % (type(exc).__name__, i)))
+            elif isinstance(exc, T.BadNumberError):
+                legit, form = bad_number_legit(s, i)
+                if not legit:
+                    bad.append((dict(kind="literal-value", form="decimal-sci" if form == "decimal" else form, cause="rejected-in-range"),
+                                "BadNumberError at %d although the spelling there has an exact value inside the float range" % i))
         else:
             bad.append((dict(kind="escaped-exception", cls=type(exc).__name__),
                         "tokenise raised %s instead of tokens or a lexical error" % type(exc).__name__))
@@ -222,11 +279,9 @@ def relations(s, toks, exc, T, ws_choices):
                 ok = isinstance(v, float) and float_close(v, val)
             if not ok:
                 cause = ("no-such-digit" if kind == "bad" else
-                         "infinite" if isinstance(v, float) and v in (float("inf"), float("-inf")) else
-                         "subnormal-or-zero" if kind == "dec" and abs(val) < FLT_MIN_NORMAL else "wrong")
-                if cause != "subnormal-or-zero":   # below the normal range the property's tolerance does not apply
-                    bad.append((dict(kind="literal-value", form=form, cause=cause),
-                                why or "literal %r has exact value %s but lexed as %r" % (lex, val, v)))
+                         "infinite" if isinstance(v, float) and v in (float("inf"), float("-inf")) else "wrong")
+                bad.append((dict(kind="literal-value", form=form, cause=cause),
+                            why or "literal %r has exact value %s but lexed as %r" % (lex, short(val), v)))
             if nxt and nxt in "0123456789":
                 bad.append((dict(kind="maximal-munch", what="number"), "number %r is followed by the digit %r" % (lex, nxt)))
         elif tag == "identifier":
@@ -303,6 +358,17 @@ def impl_batch(job):
     return dict(lines=lines, fails=fails[:50], nfails=len(fails), st=st)
 
 
+def impl_shrink(cands):
+    """first candidate substring on which a relation of the property fails"""
+    import ka.tokens as T
+    for c in cands:
+        line, toks, exc = impl_line(c, T)
+        bad = relations(c, toks, exc, T, [" "])
+        if bad:
+            return (c, bad[0][0], bad[0][1], line)
+    return None
+
+
 def impl_execute(s):
     """through execute(): a lexical error is a status-1 diagnostic with the caret under the index;
     a lone exact literal prints its exact value."""
@@ -368,7 +434,7 @@ def rand_lexeme(rng, consts):
     if k < 0.70:
         if rng.random() < 0.45:
             return rng.choice(["to", "in", "instant", "tox", "int", "into", "in2", "to_", "t", "i", "ins", "instan", "instants", "toe", "e", "e5", "x1F", "b1", "d", "o7", "inf"])
-        return rng.choice("abextoinAFdzZ€$£¥") + "".join(rng.choice("abexto_019AF€$£¥") for _ in range(rng.randint(0, 5)))
+        return rng.choice("abextoinAFdzZμ€$£¥") + "".join(rng.choice("abexto_019AFμ€$£¥") for _ in range(rng.randint(0, 5)))
     if k < 0.94:
         return rng.choice(consts)
     return rng.choice(["@", "²", "é", "_", "½", ".", "'", "\\", "٣", "一", "~", "&"])
@@ -395,7 +461,7 @@ def rand_sequence(rng, consts):
 def representative_lexemes(consts):
     return sorted(set(consts)) + ["1", "0", "12", "1.", ".5", "1.5", "1e5", "1e+5", "1e-5", "1.5e3", "1.e2", "0x1F", "0b1", "0o7",
                                   "0d9", "0b2", "1e", "1e+", "0x", "a", "e", "e5", "x", "b", "d", "t", "i", "n", "tox", "int", "instantx",
-                                  "_", "€", "$x", "\"s\"", "\"\"", "\"a\\\"\"", "#d#", "##", "\"", "#", ".", "²", "é", "@", "\\", "A", "F"]
+                                  "_", "€", "$x", "μ", "μm", "\"s\"", "\"\"", "\"a\\\"\"", "#d#", "##", "\"", "#", ".", "²", "é", "@", "\\", "A", "F"]
 
 
 # ------------------------------------------------------------------ comparison
@@ -444,7 +510,7 @@ def check_classes(consts):
         sp, al, nu = c.isspace(), c.isalpha(), c.isnumeric()
         ok = ((not sp or (c not in sig and not al and not nu))
               and (c not in letters or al)
-              and (not (c in sig and al) or c in letters)
+              and (not (c in sig and al) or c in IDENT_CHARS)
               and (c not in "0123456789" or nu)
               and (c != "." or not nu))
         if not ok:
@@ -549,6 +615,7 @@ def run(ctx):
     samples = []
     fail_inputs = {}
     pos = {}
+    pending = []
     for job, r in zip(jobs, res):
         for k in stats:
             stats[k] += r["st"][k]
@@ -578,6 +645,28 @@ def run(ctx):
                 disagreements += 1
                 if s in fail_inputs:
                     continue            # already reported as a failure of the property itself
+                pending.append((s, il, m))
+
+    # ---------------- disagreements whose whole-input result passes the relations: the deviation may be
+    # hidden behind a later error; look for a piece of the input on which a relation fails
+    if pending:
+        cand = []
+        for s, il, m in pending[:400]:
+            parts = [x for x in re.split(r"\s+", s) if x]
+            cs = []
+            for a in range(len(parts)):
+                cs.append(parts[a])
+                if a + 1 < len(parts):
+                    cs.append(parts[a] + parts[a + 1])
+                    cs.append(parts[a] + " " + parts[a + 1])
+            cand.append(cs)
+        sh = C.run_impl(impl_shrink, cand, ctx["rundir"], limit=30.0)
+        for (s, il, m), r in zip(pending[:400], sh):
+            if r and not (isinstance(r, dict) and r.get("hung")):
+                c, sig, txt, line = r
+                rep.violation(sig, "C11 fails on the implementation for input %r (a piece of %r, on which model and implementation disagree): %s" % (c, s, txt),
+                              dict(input=c, within=s, relation=sig, detail=txt, impl=line))
+            else:
                 rep.violation(dict(kind="correspondence", impl=il.split(" ")[0] + ":" + (il.split(" ")[1] if il.startswith("E") else ""),
                                    model=m.split(" ")[0] + ":" + (m.split(" ")[1] if m.startswith("E") else "")),
                               "model and tokenise() disagree on %r: implementation %s, model %s (no relation of the property fails on the implementation's result)" % (s, il, m),
